@@ -125,6 +125,10 @@ Fixpoint infix_at {A} (eqb : A -> A -> bool) (sub l : list A) : bool :=
   list_eqb eqb sub (firstn (List.length sub) l) ||
   match l with [] => false | _ :: r => infix_at eqb sub r end.
 
+(* index by a Z that may be far out of range (never convert an untrusted Z to nat) *)
+Definition nth_error_z {A} (l : list A) (i : Z) : option A :=
+  if (i <? 0) || (i >=? Z.of_nat (List.length l)) then None else nth_error l (Z.to_nat i).
+
 Definition proof_eqb (a b : proof) : bool :=
   (pf_total a =? pf_total b) && (pf_index a =? pf_index b)
   && bytes_eqb (pf_leaf_hash a) (pf_leaf_hash b) && list_eqb bytes_eqb (pf_aunts a) (pf_aunts b).
@@ -231,8 +235,8 @@ Definition check (c : case) : verdict :=
                    states the true number of leaves, it sits at the stated index *)
                 && existsb (bytes_eqb (t_tx r)) txs
                 && imp (pf_total p =? Z.of_nat (List.length txs))
-                       match nth_error txs (Z.to_nat (t_index r)) with
-                       | Some x => (0 <=? t_index r) && bytes_eqb x (t_tx r) | None => false end
+                       match nth_error_z txs (t_index r) with
+                       | Some x => bytes_eqb x (t_tx r) | None => false end
               end) 3;
       viol (imp honest relayed_i) 9;
       mism (Bool.eqb relayed_m relayed_i) 29;
@@ -298,7 +302,7 @@ Definition check (c : case) : verdict :=
     first_of [
       (* the served proof validates against the block's data hash, and is for transaction i *)
       viol (valid_i && txproof_validate Hs (unhex data_hash) tp
-            && match nth_error ts (Z.to_nat i) with Some x => bytes_eqb x (tp_data tp) | None => false end
+            && match nth_error_z ts i with Some x => bytes_eqb x (tp_data tp) | None => false end
             && (pf_index (tp_proof tp) =? i)) 11;
       mism (bytes_eqb (txs_root Hs ts) (unhex data_hash)) 37;
       mism (bytes_eqb (tp_root tm) (tp_root tp) && bytes_eqb (tp_data tm) (tp_data tp)
